@@ -169,7 +169,10 @@ def gen_op(rng, op_id, arrays, objects, strings, n_tmp):
         if optional and rng.random() < 0.5:
             break
         if k == 'any':
-            args.append(any_value())
+            if fn in ('arrayIndexOf', 'arrayLastIndexOf') and rng.random() < 0.25:
+                args.append(['var', 'hostPred'])       # a match function instead of a value
+            else:
+                args.append(any_value())
         else:
             args.append(valid(k))
     if faulty and sig and not sig[0].startswith('*'):
@@ -313,7 +316,7 @@ def run(plan, stats):
     viols = []
     real_pool = build_pool(plan['pool'], True)
     ref_pool = build_pool(plan['pool'], False)
-    opaque = {'vDt': Opaque('datetime'), 'vRe': Opaque('regex'), 'hostNop': Opaque('function')}
+    opaque = {'vDt': Opaque('datetime'), 'vRe': Opaque('regex'), 'hostNop': Opaque('function'), 'hostPred': Opaque('pred')}
     ref_globals = dict(ref_pool)
     ref_globals.update(opaque)
     ops_by_id = {op['id']: op for ops in plan['clients'] for op in ops}
@@ -326,6 +329,7 @@ def run(plan, stats):
     globals_['vDt'] = datetime.datetime(2020, 1, 2, 3, 4, 5)
     globals_['vRe'] = re.compile('a')
     globals_['hostNop'] = lambda args, options: None
+    globals_['hostPred'] = lambda args, options: copy.deepcopy(refheap.pred_value(args[0] if args else None))
 
     def ref_arg(a):
         if a[0] == 'var':
